@@ -337,12 +337,13 @@ def _main(args, tier, seed, scratch, t0):
     seen_sigs = set()
     if new_violations:
         rc = EXIT_VIOLATED
-        (HOME / "replays").mkdir(exist_ok=True)
+        rdir = Path(os.environ.get("VERIF_REPLAYS", HOME / "replays"))
+        rdir.mkdir(parents=True, exist_ok=True)
         for v in new_violations:
             if v["signature"] in seen_sigs:
                 continue
             seen_sigs.add(v["signature"])
-            rp = HOME / "replays" / f"{pid}-{jhash(v['case'])}.json"
+            rp = rdir / f"{pid}-{jhash(v['case'])}.json"
             rp.write_text(
                 json.dumps(
                     {"property": pid, "signature": v["signature"],
